@@ -894,8 +894,9 @@ def _classify_call(e, kinds, scope, path, route, o, exact_required, extra_types=
         return 'exact-int-div'
     if 'err' in o and o['err'] != 'unbound' and 'ite' in kinds and X.eager_fails(e, sc, vc):
         return 'piecewise-eager'
-    if a['reversed_sum'] and o.get('err') == 'other:ValueError' and (path == 'symfull' or symbolic):
-        return 'sum-reversed-limits'
+    if o.get('err') == 'other:ValueError' and (path == 'symfull' or symbolic) and 'sum' in kinds and \
+            kinds & {'min', 'max'}:
+        return 'symbolic-minmax-sum'
     if a['reversed_sum'] and ('val' in o or 'nan' in o) and (path == 'symfull' or symbolic):
         return 'sum-reversed-limits'
     return None
